@@ -1,7 +1,7 @@
 /-
 C06 — the meaning of a query of the documented grammar, written from doc/query_syntax.md (not from the parser):
 
-* a bare pattern (and `regex:`) matches in the file name or in the content; `content:`/`c:` in the content,
+* a bare pattern matches in the file name or in the content; `content:`/`c:` and `regex:` in the content,
   `file:`/`f:` in the file name, `sym:` in a symbol name, `repo:`/`r:` in the repository name, `branch:`/`b:` in a
   branch name the file is on, `lang:` the file's language, `archived:`/`fork:`/`public:` the repository's flags,
   `meta.<name>:` the repository's metadata value;
@@ -35,7 +35,7 @@ def hasUpper : B → Bool
 def keyOf (O : Oracle) (f : Field) (text name : B) : Option AtomKey :=
   match f with
   | .text => some ⟨116, text, []⟩
-  | .regex => some ⟨116, text, []⟩
+  | .regex => some ⟨99, text, []⟩     -- "Matches content using a regular expression"
   | .content => some ⟨99, text, []⟩
   | .file => some ⟨102, text, []⟩
   | .sym => some ⟨115, text, []⟩
